@@ -39,6 +39,19 @@ HANDLERS = [
     ("withdraw_emissions", "marginfi_account/emissions.rs", "lending_account_withdraw_emissions"),
     ("withdraw_emissions_permissionless", "marginfi_account/emissions.rs", "lending_account_withdraw_emissions_permissionless"),
     ("settle_emissions", "marginfi_account/emissions.rs", "lending_account_settle_emissions"),
+    ("start_liquidation", "marginfi_account/liquidate_start.rs", "start_liquidation"),
+    ("start_deleverage", "marginfi_account/liquidate_start.rs", "start_deleverage"),
+    ("start_receivership", "marginfi_account/liquidate_start.rs", "start_receivership"),
+    ("end_liquidation", "marginfi_account/liquidate_end.rs", "end_liquidation"),
+    ("end_deleverage", "marginfi_account/liquidate_end.rs", "end_deleverage"),
+    ("end_receivership", "marginfi_account/liquidate_end.rs", "end_receivership"),
+    ("transfer_to_new_account", "marginfi_account/transfer_account.rs", "transfer_to_new_account"),
+    ("transfer_to_new_account_pda", "marginfi_account/transfer_account.rs", "transfer_to_new_account_pda"),
+    ("check_flashloan_can_start", "marginfi_account/flashloan.rs", "check_flashloan_can_start"),
+    ("re_pre_liquidation", "../state/marginfi_account.rs", "check_pre_liquidation_condition_and_get_account_health"),
+    ("re_post_liquidation", "../state/marginfi_account.rs", "check_post_liquidation_condition_and_get_account_health"),
+    ("re_check_bankrupt", "../state/marginfi_account.rs", "check_account_bankrupt"),
+    ("re_check_init_health", "../state/marginfi_account.rs", "check_account_init_health"),
 ]
 
 PATTERNS = [
@@ -67,6 +80,19 @@ PATTERNS = [
     (r"MarginfiError::InvalidFeeAta\b", lambda m: "fee_ata_check"),
     (r"MarginfiError::InvalidEmissionsDestinationAccount\b", lambda m: "emis_dest_check"),
     (r"\btransfer_checked\s*\(", lambda m: "transfer_checked"),
+    (r"\.\s*set_flag\s*\(\s*(ACCOUNT_\w+)", lambda m: "setflag:" + m.group(1)),
+    (r"\.\s*unset_flag\s*\(\s*(ACCOUNT_\w+)", lambda m: "unsetflag:" + m.group(1)),
+    (r"\breturn\s+Ok\s*\(", lambda m: "return_ok"),
+    (r"\bvalidate_instructions\s*\(", lambda m: "validate_ixs"),
+    (r"\bvalidate_not_cpi_by_stack_height\s*\(", lambda m: "not_cpi"),
+    (r"\bvalidate_not_cpi_with_sysvar\s*\(", lambda m: "not_cpi_sysvar"),
+    (r"\.account_flags\s*=[^=]", lambda m: "copy_flags"),
+    (r"liquidation_receiver\s*=\s*Pubkey::default\s*\(\)", lambda m: "clear_receiver"),
+    (r"MarginfiError::WorseHealthPostLiquidation\b", lambda m: "worse_health_check"),
+    (r"MarginfiError::LiquidationPremiumTooHigh\b", lambda m: "premium_check"),
+    (r"\bstart_receivership\s*\(", lambda m: "call_start_receivership"),
+    (r"\bend_receivership\s*\(", lambda m: "call_end_receivership"),
+    (r"\bcheck_flashloan_can_start\s*\(", lambda m: "call_can_start"),
 ]
 
 
@@ -127,7 +153,11 @@ SIMPLE = {"asset_tags": "assetTags", "capacity": "capacity", "find_or_create": "
           "update_bank_cache": "updateBankCache", "update_withdrawn_equity": "updateWithdrawnEquity",
           "claim_emissions": "claimEmissions", "settle_emissions": "settleEmissions", "check_utilization": "checkUtilization",
           "transfer:deposit_spl_transfer": "transferIn", "transfer:withdraw_spl_transfer": "transferOut",
-          "fee_ata_check": "feeAtaCheck", "emis_dest_check": "emisDestCheck", "transfer_checked": "transferChecked"}
+          "fee_ata_check": "feeAtaCheck", "emis_dest_check": "emisDestCheck", "transfer_checked": "transferChecked",
+          "return_ok": "returnOk", "validate_ixs": "validateIxs", "not_cpi": "notCpi", "not_cpi_sysvar": "notCpiSysvar",
+          "copy_flags": "copyFlags", "clear_receiver": "clearReceiver", "worse_health_check": "worseHealthCheck",
+          "premium_check": "premiumCheck", "call_start_receivership": "callStartReceivership",
+          "call_end_receivership": "callEndReceivership", "call_can_start": "callCanStart"}
 
 PRELUDE = """-- GENERATED by translator/skeleton.py from programs/marginfi/src/instructions/**. Do not edit.
 namespace Mfi.Gen.Skel
@@ -147,6 +177,8 @@ inductive Ev
   | sort | socializeLoss | updateBankCache | signer (v : Vault) | acctFlag (f : AFlag)
   | updateWithdrawnEquity | claimEmissions | settleEmissions | checkUtilization | notFound
   | feeAtaCheck | emisDestCheck | transferChecked
+  | setFlag (f : AFlag) | unsetFlag (f : AFlag) | returnOk | validateIxs | notCpi | notCpiSysvar | copyFlags
+  | clearReceiver | worseHealthCheck | premiumCheck | callStartReceivership | callEndReceivership | callCanStart
   deriving DecidableEq, Repr
 """
 
@@ -166,6 +198,10 @@ def lean_ev(e):
         return "(.signer .%s)" % VAULTS.get(rest, "unknown")
     if k == "acctflag":
         return "(.acctFlag .%s)" % FLAGS.get(rest, "unknown")
+    if k == "setflag":
+        return "(.setFlag .%s)" % FLAGS.get(rest, "unknown")
+    if k == "unsetflag":
+        return "(.unsetFlag .%s)" % FLAGS.get(rest, "unknown")
     return ".notFound"
 
 
